@@ -20,7 +20,8 @@ RULE = (
 )
 REQUIRED = ["graphcluster_runs", "batchcluster_runs", "incremental_runs", "order_permutations", "near_miss_pairs_present",
             "relabelled_copies_present", "pregroup_attribute_runs", "template_library_with_gaps_runs",
-            "same_ids_near_miss_present", "reclustered_entries_runs", "lib_check_single_matcher_runs", "half_order_near_misses"]
+            "same_ids_near_miss_present", "reclustered_entries_runs", "lib_check_single_matcher_runs", "half_order_near_misses",
+            "inplace_edit_recluster_runs", "template_library_not_in_class_order_runs"]
 ASSUMPTIONS = [
     "isomorphism on element (default '*'), charge (default 0), bond order (default 1) — the clusterers' defaults",
     "the pre-grouping attribute supplied by the harness is isomorphism-invariant (sorted element string)",
@@ -189,6 +190,11 @@ def check_multiset(ctx, graphs, tag):
             if len(templ) > 1:
                 templ.pop(rng.randrange(len(templ)))
             ctx.count("template_library_with_gaps_runs")
+        if t % 3 == 1 and len(templ) > 1:
+            # a merged / re-ordered library: representatives are not listed in class order
+            rng.shuffle(templ)
+            if templ[-1]["class"] != max(x["class"] for x in templ):
+                ctx.count("template_library_not_in_class_order_runs")
         lib_class_of = {want[x["idx"]]: x["class"] for x in templ}
         used = set(lib_class_of.values())
         new_data, templ2 = bc.cluster(entries(graphs, new_idx, with_attr), templ, rule_key="gml", attribute_key=ak)
@@ -224,6 +230,31 @@ def check_multiset(ctx, graphs, tag):
     if not same_partition([e["class"] for e in data], [want[e["idx"]] for e in data]):
         ctx.violation("graphcluster-partition", {**wit, "order": order2, "history": "entries clustered before in another list"},
                       "GraphCluster.fit gives a wrong partition when some entry dicts were clustered before in another list")
+    # history: one clusterer object, the same graph objects; a member is edited in place between two runs
+    gs = [g.copy() for g in graphs[: min(n, 6)]]
+    if len(gs) >= 2:
+        gc, bcl = GraphCluster(), BatchCluster()
+        for label, runner in (("GraphCluster.fit", lambda: [e["class"] for e in gc.fit([{"gml": g} for g in gs], rule_key="gml", attribute_key=None)]),
+                              ("BatchCluster.cluster", lambda: [e["class"] for e in bcl.cluster([{"gml": g} for g in gs], [], rule_key="gml", attribute_key=None)[0]])):
+            first = runner()
+            tgt = gs[rng.randrange(len(gs))]
+            node = rng.choice(list(tgt.nodes))
+            old_c = tgt.nodes[node].get("charge", 0)
+            tgt.nodes[node]["charge"] = old_c + 1
+            try:
+                second = runner()
+                ctx.count("inplace_edit_recluster_runs")
+                exp2 = oracle_classes(gs)
+                if not same_partition(second, exp2):
+                    ctx.violation("cluster-depends-on-history", {**wit, "entry_point": label, "edited_node": node},
+                                  f"{label} on the same clusterer after a member graph was edited in place (charge of atom {node}): classes {second}, "
+                                  f"isomorphism classes of the graphs as they are now {exp2} (before the edit: {first})")
+            finally:
+                tgt.nodes[node]["charge"] = old_c
+            third = runner()
+            if not same_partition(third, oracle_classes(gs)):
+                ctx.violation("cluster-depends-on-history", {**wit, "entry_point": label, "edited_node": node, "undone": True},
+                              f"{label} after the in-place edit was undone: classes {third} are not the isomorphism classes")
     # secondary entry point with a single caller-supplied matcher: the other one must still be the clusterer's own
     from operator import eq
     from networkx.algorithms.isomorphism import generic_node_match, generic_edge_match
